@@ -332,6 +332,19 @@ theorem callOk (tid : Nat) (op : NOp) : CallOk tid op := by
     intro st s1 hm _
     have : phRun .idle (preN st tid (.xGetC d s k)) = some .idle := phRun_getEmb _ _ _ _ _ _ _
     rw [this] at hm; cases hm
+  | sFromV d s =>
+    have hp : ∀ st, phRun .idle (preN st tid (.sFromV d s)) = some .idle := by
+      intro st; simp only [preN]; (repeat' split) <;> rfl
+    refine ⟨fun st => Or.inl (hp st), fun _ _ => rfl, ?_⟩
+    intro st s1 hm _; rw [hp st] at hm; cases hm
+  | vSetS d s =>
+    refine ⟨fun st => Or.inr rfl, ?_, ?_⟩
+    · intro s1 hw; simp only [postN, hw, Bool.false_eq_true, if_false, innerFromVar]; (repeat' split) <;> rfl
+    · intro st s1 _ hw; simp only [postN, hw, if_true, innerAssign]; (repeat' split) <;> rfl
+  | vAppS d bytes =>
+    refine ⟨fun st => Or.inr rfl, ?_, ?_⟩
+    · intro s1 hw; simp only [postN, hw, Bool.false_eq_true, if_false]; (repeat' split) <;> rfl
+    · intro st s1 _ hw; simp only [postN, hw, if_true]; (repeat' split) <;> rfl
   | flat op =>
     cases op
     case vPush d x =>
